@@ -116,8 +116,24 @@ def keyOld (H : Bytes → Bytes) (s : KeyState) : Bytes :=
 def outHash (H : Bytes → Bytes) (serOutputs : List Bytes) : Bytes :=
   if serOutputs.isEmpty then [] else H (sortBytes (serOutputs.map H)).flatten
 
-/-- `GetNoCacheOutputHash`: `HashStrings(digests)` = hash of the sorted digests joined by "," -/
-def outHashNoCache (H : Bytes → Bytes) (digests : List Bytes) : Bytes :=
-  H (joinComma (sortBytes digests))
+/-- decimal digits of `n`, most significant first, as `fmt.Sprintf("%d", n)` prints them (fuel = number of digits) -/
+def decDigits : Nat → Nat → List UInt8
+  | 0, _ => []
+  | fuel + 1, n => if n < 10 then [UInt8.ofNat (48 + n)] else decDigits fuel (n / 10) ++ [UInt8.ofNat (48 + n % 10)]
+
+def dec (n : Nat) : Bytes := decDigits (n + 1) n
+
+/-- one element of `GetNoCacheOutputHash`: `fmt.Sprintf("%d:%s:%s", len(definition), definition, digest)` — the digest of an
+    output tied to the (length-framed) definition of the output it belongs to -/
+def nocacheElem (definition digest : Bytes) : Bytes :=
+  dec definition.length ++ cColon :: definition ++ cColon :: digest
+
+/-- `GetNoCacheOutputHash`: `HashStrings(elements)` = hash of the sorted elements joined by "," -/
+def outHashNoCache (H : Bytes → Bytes) (outs : List (Bytes × Bytes)) : Bytes :=
+  H (joinComma (sortBytes (outs.map (fun o => nocacheElem o.1 o.2))))
+
+/-- `HashFile`, `HashBytes`, `HashString`: the configured hash of the whole content, nothing else (no chunking, no
+    path, no metadata).  File and tree digests, and through them the dependency output digests of the key, are this. -/
+def hashContent (H : Bytes → Bytes) (content : Bytes) : Bytes := H content
 
 end Grog
